@@ -15,10 +15,15 @@ var c18Files = []string{"a", "sub/c", "sub/deep/d", ".hid/g", "a.bak", "b.twx", 
 func HarnessC18Names() {
 	vfsReset()
 	ext := []string{".tw", ".tw.html", ".t"}[vChoice("ext", 3)]
-	dirSpelling := []string{"tpl", "tpl/", "./tpl", "nest/tpl", "tpl//", "other/../tpl", "tpl/sub/..", "tpl/.", "tpl/sub/deep/../.."}[vChoice("dir", 9)]
+	dirSpelling := []string{"tpl", "tpl/", "./tpl", "nest/tpl", "tpl//", "other/../tpl", "tpl/sub/..", "tpl/.", "tpl/sub/deep/../..",
+		".", "./", "tpl/..", "other/../"}[vChoice("dir", 13)]
 	real := "tpl"
 	if dirSpelling == "nest/tpl" {
 		real = "nest/tpl"
+	}
+	prefix := "" // spellings that clean to the working directory itself: names carry the sub-directory
+	if dirSpelling == "." || dirSpelling == "./" || dirSpelling == "tpl/.." || dirSpelling == "other/../" {
+		prefix = "tpl/"
 	}
 	vfsMkdir("other")
 	// which of the candidate files exist is a (enumerated) subset: one "template" file set plus one decoy
@@ -27,7 +32,7 @@ func HarnessC18Names() {
 	for i, f := range c18Files[:4] {
 		_ = i
 		vfsWriteFile(real+"/"+f+ext, "T:"+f)
-		want[f] = true
+		want[prefix+f] = true
 	}
 	d := c18Files[decoy]
 	if decoy >= 4 {
@@ -43,7 +48,7 @@ func HarnessC18Names() {
 	vAssert(len(tpl.programs) == len(want), "exactly-the-files-ending-in-the-extension-are-registered")
 	for n := range want {
 		out, ferr := tpl.String(n, nil)
-		vAssert(ferr == nil && out == "T:"+n, "template-is-addressable-by-relative-name-without-extension")
+		vAssert(ferr == nil && out == "T:"+n[len(prefix):], "template-is-addressable-by-relative-name-without-extension")
 	}
 	_, nerr := tpl.String("unknown", nil)
 	vAssert(nerr != nil, "unknown-name-is-not-found")
@@ -141,10 +146,16 @@ func HarnessC18Faulty() {
 		vCover("load-error")
 		vAssert(tpl == nil, "failed-load-returns-a-nil-template")
 		msg := err.Error()
-		if which != 2 || mustFail {
-			// a damaged page may name any layout/component; then the error names that (absent) file instead
+		if which != 2 && mustFail {
+			// a missing or unreadable layout / component is identified by its path, or by its name when the file is absent
+			vAssert(hasSub(msg, cwd+"/"+files[which].path) || hasSub(msg, names[which]), "error-identifies-the-missing-or-unreadable-file")
+		} else if which != 2 {
+			// a damaged layout / component may still parse (as plain text); the fault is then the page's undefined insert or slot
 			vAssert(hasSub(msg, cwd+"/"+files[which].path) || hasSub(msg, names[which]) || hasSub(msg, cwd+"/templates/page.tw"),
 				"error-identifies-the-faulty-file-or-the-page-that-needs-it")
+		} else if mustFail {
+			// a damaged page may name any layout/component; then the error names that (absent) file instead
+			vAssert(hasSub(msg, cwd+"/"+files[which].path) || hasSub(msg, names[which]), "error-identifies-the-faulty-page")
 		}
 	}
 }
